@@ -36,6 +36,8 @@ type Ev struct {
 	ND   bool   `json:"nd,omitempty"`   // req: name a dialer that does not exist
 	OK   bool   `json:"ok,omitempty"`   // dial: succeed
 	Slow bool   `json:"slow,omitempty"` // dial ok: the handle's Close() parks until closego
+	Deaf bool   `json:"deaf,omitempty"` // req: the Dial started for this request ignores its context; cancel: of such a thread
+	Hold bool   `json:"hold,omitempty"` // req: stop at connection:locked (inside the critical section) until closego 1000+i
 	EK   int    `json:"ek,omitempty"`   // dial fail: kind of error (0 plain, 1 wraps context.DeadlineExceeded, 2 wraps io.EOF)
 }
 
@@ -72,6 +74,8 @@ type thread struct {
 	cmd      chan int // 1 = call done
 	started  bool
 	atHook   bool // reached connection:joined at least once
+	hold     bool // stop at connection:locked
+	deaf     bool // its Dial does not listen to the context
 	returned bool
 	done     func()
 	releases int
@@ -123,6 +127,10 @@ type ctl struct {
 	bad     int
 	msg     string
 }
+
+// holdSeen: the schedule point connection:locked exists in this repository;
+// holdOK is set from it by a probe before the first case.
+var holdSeen, holdOK bool
 
 var current struct {
 	mu sync.Mutex
@@ -262,6 +270,19 @@ func (c *ctl) hook(p string) {
 			th.atHook = true
 		}
 		c.joined = append(c.joined, t)
+	case "connection:locked":
+		holdSeen = true
+		t, ok := c.byGoid[g]
+		th := c.threads[t]
+		if !ok || th == nil || !th.hold {
+			c.mu.Unlock()
+			return
+		}
+		th.hold = false
+		c.pClose[1000+t] = ch
+		c.parked = 1000 + t
+		c.used = 0
+		c.inclose = append(c.inclose, 1000+t)
 	case "dial:failed":
 		d, ok := c.dialGoid[g]
 		if !ok {
@@ -308,7 +329,15 @@ func (c *ctl) dial(ctx context.Context, target string, _ ...grpc.DialOption) (*g
 	c.dials[creator] = d
 	c.dialGoid[g] = creator
 	c.ndials = append(c.ndials, [2]int{creator, addr})
+	deaf := false
+	if t := c.threads[creator]; t != nil {
+		deaf = t.deaf
+	}
 	c.mu.Unlock()
+	done := ctx.Done()
+	if deaf {
+		done = nil // a Dial that does not return when its context ends
+	}
 	select {
 	case ok := <-d.rel:
 		c.mu.Lock()
@@ -336,7 +365,7 @@ func (c *ctl) dial(ctx context.Context, target string, _ ...grpc.DialOption) (*g
 		c.byConn[cc] = creator
 		c.mu.Unlock()
 		return cc, nil
-	case <-ctx.Done():
+	case <-done:
 		c.mu.Lock()
 		d.inDial = false
 		c.mu.Unlock()
@@ -532,6 +561,9 @@ func (c *ctl) enabled(e Ev) bool {
 	switch e.K {
 	case "req":
 		_, ok := c.threads[e.I]
+		if e.Hold && holdOK && c.parked >= 0 {
+			return false
+		}
 		return !ok
 	case "pass":
 		_, ok := c.pJoined[e.I]
@@ -623,7 +655,7 @@ func (c *ctl) do(e Ev) Obs {
 	switch e.K {
 	case "req":
 		c.mu.Lock()
-		t = &thread{id: e.I, addr: e.A, cmd: make(chan int), started: true, busy: true}
+		t = &thread{id: e.I, addr: e.A, cmd: make(chan int), started: true, busy: true, hold: e.Hold && holdOK && c.parked < 0, deaf: e.Deaf}
 		c.threads[e.I] = t
 		c.curReq = e.I
 		ctx := c.ctx(e.I)
